@@ -41,6 +41,16 @@ CHECKS = {
         text="Arbitrary bytes and mutated (also non-canonical) SOME/IP/SD messages are handed to every decoder (outcome must be value+true suffix, ParseError, or UnicodeDecodeError only with a non-ASCII configuration string found by an independent walk); the same bytes are delivered, unicast and multicast, into a running discovery endpoint holding discovery/subscription/session state and into a SimpleService endpoint: the call must return, nothing may reach the loop's exception handler, a datagram of rejected messages only must leave state and traces untouched, and twin runs (with the junk / with only its accepted projection, unicast-flag-clear messages reduced to their header) must be observationally identical.",
         note="Trusted: harness/wire.py (SOME/IP header classification), virtual loop. Exceptions the library logs and swallows inside its own tasks are not counted as escaping. The atheris campaign of the thorough tier is coverage-guided and only approximately reproducible.",
     ),
+    "C05": dict(
+        technique="model-based property testing of histories on a deterministic virtual-time event loop: bounded-exhaustive enumeration over a small alphabet + Hypothesis histories with schedule-aware timing, reference model of live offers",
+        text="Histories of real SD datagrams (offers, stop-offers, reboot evidence in the same or separate messages, both channels, several sources) and watch/unwatch/connection-loss calls are executed against the unmodified library on a virtual-time loop, with steps placed relative to pending TTL timers (same iteration before/after, one iteration earlier/later); at every idle point the recorded listener calls are compared with a reference model: strict alternation, offered only if live, offered whenever a live offer arrived during the registration, stops before offers of a reboot-revealing message. All histories up to a bounded length over an 11-letter alphabet are enumerated.",
+        note="Trusted: virtual loop (CPython's _run_once with a replaced clock/selector), wire.py, the reference model. Step order decides 'arrived while registered'; both outcomes are accepted where the statement is silent.",
+    ),
+    "C06": dict(
+        technique="model-based property testing of histories on a deterministic virtual-time event loop: bounded-exhaustive enumeration + Hypothesis histories with schedule-aware timing, per-subscription reference model consuming the listener call log, independent decoding of SubscribeAck entries",
+        text="Histories of Subscribe/StopSubscribe datagrams (several entries per message, reboot evidence in the same message or on the other channel, listener decisions drawn per call), announcer stop/start, (un)announce and connection loss are executed on a virtual-time loop; at every idle point each listener call must have a cause in the history and each model event its call (alternation, no unsubscribe after a rejection, live exactly from acceptance to TTL/Stop/reboot/service stop), and every positive SubscribeAck on the wire must refer to a subscription still recorded.",
+        note="Trusted: virtual loop, wire.py, reference model. A Subscribe within RES of its predecessor's deadline is simultaneous (both outcomes accepted). API calls respect their preconditions.",
+    ),
 }
 ALL = ["C%02d" % i for i in range(1, 21)]
 NOT_APPLICABLE = {p: "check not built yet in this revision (in progress); the technique applies" for p in ALL if p not in CHECKS}
